@@ -3,6 +3,7 @@
   strided output index map is a bijection (each output index is written exactly once).
 -/
 import XC.Model.C19
+import XC.Proofs.C19
 namespace XC.C19
 open XC.C12
 
@@ -141,5 +142,14 @@ theorem stride_is_permutation (nb : Nat) (hnb : 0 < nb) (k : Nat) (hk : k < 32 *
     constructor
     · rw [Nat.add_comm, Nat.add_mul_div_right _ _ hnb, Nat.div_eq_of_lt hb, Nat.zero_add]
     · rw [Nat.add_comm, Nat.add_mul_mod_self_right, Nat.mod_eq_of_lt hb]
+
+/-- the returned key is OpenBSD's output layout (`key[i * stride + (count - 1)]`, truncated to keyLen):
+    byte j is byte j / numBlocks of block (j % numBlocks) + 1 — proved from the Go-shaped array stores -/
+theorem key_layout (pw salt : Bytes) (rounds keyLen : Int) (k : Bytes)
+    (h : key pw salt rounds keyLen = .ok k) :
+    k = gather ((List.range ((keyLen.toNat + 31) / 32)).map
+          (fun b => (blockOut (XC.Prim.sha512 pw) salt rounds.toNat (b + 1)).getD []))
+        ((keyLen.toNat + 31) / 32) keyLen.toNat :=
+  key_eq_gather pw salt rounds keyLen k h
 
 end XC.C19
